@@ -10,7 +10,8 @@
     e1 :: e2 :: rest is a merge of (some pairing of e1, e2) :: rest; every pairing is a
     [combo_of_perm]; the de-duplication of [all_combinations] keeps, for every pairing, a
     combination with the same key, i.e. the same name lists per bin up to the order of the
-    bins, hence (names determine values) the same sums up to order; and merges do not depend
+    bins, hence (names determine values) the same sums up to order; the second de-duplication
+    (by sums: [ckk_children]) keeps a combination with the same sums; and merges do not depend
     on the order of the vectors nor on the order inside each vector. *)
 From Prtpy Require Import Base.Prelude Base.Perms Model.Binner Model.KK Model.Objectives
   Spec.Partition Proofs.BaseLemmas Proofs.BinnerLemmas Proofs.KKProofs Proofs.EnumProofs
@@ -448,7 +449,7 @@ Section CKKComplete.
   (** ---- one step: a merge of the heap is a merge of one of its children ---- *)
   Lemma complete_step k its e1 e2 rest s : names_ok its ->
     heap_inv valueof k its (e1 :: e2 :: rest) -> Merge k (hsums (e1 :: e2 :: rest)) s ->
-    exists c, In c (all_combinations nameof true (snd e1) (snd e2)) /\
+    exists c, In c (ckk_children nameof true (snd e1) (snd e2)) /\
               Merge k (hsums (heap_push rest c)) s.
   Proof.
     intros HN Hh HM. pose proof Hh as [HF _].
@@ -464,8 +465,9 @@ Section CKKComplete.
     destruct (combo_of_perm_ok valueof nameof k _ _ p L1 L2 W1 W2 Hp) as (_ & Wp & Pp).
     assert (I12 : Forall (fun x => In x its) (contents (snd e1) ++ contents (snd e2)))
       by (apply Forall_app; split; assumption).
-    exists c. split; [exact Hc|].
-    apply (Merge_push k rest c (zipsum v1' v2')); [|exact HM].
+    destruct (ckk_children_complete nameof true _ _ c Hc) as (c' & Hc' & Ec').
+    exists c'. split; [exact Hc'|].
+    apply (Merge_push k rest c' (zipsum v1' v2')); [|exact HM]. rewrite Ec'.
     etransitivity; [symmetry; exact Hsp|]. symmetry.
     apply (key_eq_sums_perm its); try assumption.
     - eapply Permutation_Forall; [symmetry; exact Pc|exact I12].
@@ -484,7 +486,7 @@ Section CKKComplete.
       destruct (complete_step k its e1 e2 rest s HN Hh HM) as (c & Hc & HMc).
       destruct (IH (heap_push rest c) s) as (e & He & Hs).
       + rewrite heap_push_length. lia.
-      + eapply ckk_child_inv; eassumption.
+      + eapply ckk_child_inv; [exact Hh|apply ckk_children_sound; exact Hc].
       + exact HMc.
       + exists e. split; [eapply expands_step; eassumption|exact Hs].
   Qed.
@@ -552,7 +554,7 @@ Section CKKComplete.
   Lemma expands_expands_all h h' : expands nameof h h' -> expands_all h h'.
   Proof.
     induction 1 as [h|e1 e2 rest c h' Hc He IH]; [apply expands_all_refl|].
-    apply all_combinations_sound in Hc. destruct Hc as (p & Hp & ->).
+    apply ckk_children_sound, all_combinations_sound in Hc. destruct Hc as (p & Hp & ->).
     eapply expands_all_step; eassumption.
   Qed.
 
@@ -709,6 +711,92 @@ Section CKKComplete.
 
 End CKKComplete.
 
+(** the pruning bound is admissible for every leaf of the tree of ALL pairings (CKKOptimal.expands_all:
+    no de-duplication at all), hence for whatever sub-tree a de-duplication keeps *)
+Section CKKBoundAll.
+  Context {A : Type} (valueof nameof : A -> Z).
+  Local Notation nonneg := (Forall (fun x : A => 0 <= valueof x)).
+  (** ---- invariants along the tree of all pairings ---- *)
+  Lemma child_full_all k its e1 e2 rest p :
+    heap_full valueof k its (e1 :: e2 :: rest) -> Permutation p (range (length (snd e1))) ->
+    heap_full valueof k its (heap_push rest (combo_of_perm nameof true (snd e1) (snd e2) p)).
+  Proof.
+    intros (H1 & H2 & H3) Hp. split; [apply combo_child_inv; assumption|split].
+    - eapply child_Forall; [exact pushed_sorted_ok|exact H2].
+    - eapply child_Forall; [exact pushed_key_ok|exact H3].
+  Qed.
+
+  Lemma expands_all_full k its h h' :
+    expands_all nameof h h' -> heap_full valueof k its h -> heap_full valueof k its h'.
+  Proof.
+    induction 1 as [h|e1 e2 rest p h' Hp He IH]; intros Hf; [exact Hf|].
+    apply IH. apply child_full_all; assumption.
+  Qed.
+
+  Lemma expand_dom_all k its e1 e2 rest p :
+    heap_inv valueof k its (e1 :: e2 :: rest) -> nonneg its ->
+    Permutation p (range (length (snd e1))) ->
+    dom (heap_flat_sums (e1 :: e2 :: rest))
+        (heap_flat_sums (heap_push rest (combo_of_perm nameof true (snd e1) (snd e2) p))).
+  Proof.
+    intros Hh Hpos Hp. pose proof (heap_sums_nonneg valueof k its _ Hh Hpos) as HN.
+    destruct Hh as [HF _].
+    destruct (Forall_inv HF) as [L1 _]. destruct (Forall_inv (Forall_inv_tail HF)) as [L2 _].
+    destruct (combo_sums_dom nameof (snd e1) (snd e2) p) as [D1 D2];
+      [congruence|exact Hp|exact (Forall_inv HN)|exact (Forall_inv (Forall_inv_tail HN))|].
+    eapply dom_perm_r; [symmetry; apply flat_push_perm|].
+    unfold heap_flat_sums. cbn [flat_map].
+    apply dom_app; [|apply dom_app].
+    - apply dom_app_r1. eapply dom_perm_r; [symmetry; apply sort_bins_sums_perm|exact D1].
+    - apply dom_app_r1. eapply dom_perm_r; [symmetry; apply sort_bins_sums_perm|exact D2].
+    - apply dom_app_r2, dom_refl.
+  Qed.
+
+  Lemma expands_all_dom k its h h' : expands_all nameof h h' -> heap_inv valueof k its h ->
+    nonneg its -> dom (heap_flat_sums h) (heap_flat_sums h').
+  Proof.
+    induction 1 as [h|e1 e2 rest p h' Hp He IH]; intros Hh Hpos; [apply dom_refl|].
+    eapply dom_trans; [eapply expand_dom_all; eassumption|].
+    apply IH; [apply combo_child_inv; assumption|exact Hpos].
+  Qed.
+
+  (** the pruning bound is admissible for the tree of all pairings as well *)
+  Lemma ckk_bound_admissible_all k its h e lb :
+    heap_full valueof k its h -> nonneg its ->
+    expands_all nameof h [e] -> ckk_bound k h = Some lb -> fst e <= lb.
+  Proof.
+    intros Hf Hpos Hex Hb.
+    pose proof (expands_all_full k its _ _ Hex Hf) as (Hinv' & Hs' & Hk').
+    destruct Hf as (Hinv & _ & _).
+    pose proof (expands_all_dom k its _ _ Hex Hinv Hpos) as D.
+    pose proof (flat_total valueof k its _ Hinv) as T1. pose proof (flat_total valueof k its _ Hinv') as T2.
+    pose proof (leaf_key e (Forall_inv Hs') (Forall_inv Hk')) as Hkey.
+    destruct Hinv' as [HF' _]. destruct (Forall_inv HF') as [Le _].
+    unfold heap_flat_sums in D, T2. cbn [flat_map] in D, T2. rewrite app_nil_r in D, T2.
+    fold (heap_flat_sums h) in D.
+    destruct (ckk_bound_eq _ _ _ Hb) as [Hk2 ->]. clear Hb.
+    assert (Hne : heap_flat_sums h <> []).
+    { destruct h as [|e0 t]; [apply expands_all_nil_inv in Hex; discriminate Hex|].
+      destruct Hinv as [HF _]. destruct (Forall_inv HF) as [L0 _].
+      unfold heap_flat_sums. cbn [flat_map]. unfold sums.
+      destruct (snd e0); cbn [length] in L0; [lia|discriminate]. }
+    pose proof (dom_zmax _ _ Hne D) as Hmx.
+    assert (Hse : sums (snd e) <> []).
+    { unfold sums. destruct (snd e); cbn [length] in Le; [lia|discriminate]. }
+    pose proof (zmin_avg _ Hse) as Havg.
+    assert (HLs : Z.of_nat (length (sums (snd e))) = Z.of_nat k).
+    { unfold sums. rewrite map_length. f_equal. exact Le. }
+    rewrite HLs in Havg.
+    set (d := Z.of_nat k - 1) in *. assert (Hd : 0 < d) by lia.
+    set (mx := zmax (heap_flat_sums h)) in *.
+    set (tot := zsum (heap_flat_sums h)) in *.
+    assert (Hq : zmin (sums (snd e)) <= (tot - mx) / d).
+    { apply Z.div_le_lower_bound; [exact Hd|]. lia. }
+    lia.
+  Qed.
+
+End CKKBoundAll.
+
 (** names equal to values (plain numeric input) *)
 Lemma names_ok_values {A} (valueof : A -> Z) items : names_ok valueof valueof items.
 Proof. intros x y _ _ E. exact E. Qed.
@@ -727,6 +815,7 @@ Example ckk_needs_names_ok :
 Proof. vm_compute. split; reflexivity. Qed.
 
 Print Assumptions expands_all_complete.
+Print Assumptions ckk_bound_admissible_all.
 Print Assumptions dedup_preserves_leaves.
 Print Assumptions ckk_complete.
 Print Assumptions ckk_optimal.
